@@ -23,7 +23,7 @@ func init() {
 		Explanation: "Decides the gates and the cache discipline in front of Establish: (R15.1) Establish is reached only past, in order, the signature-verified edge (when the feature is on), the success edge of Parse, the success edge of Lint, the exactly-one-meta edge and the version-compatibility gate, and it establishes pkg.GetObjects() of that very parse; " +
 			"(R15.2, sibling rule over the three Setup functions) each revision type gets its own linter, the parser is parser.New(BuildMetaScheme(), BuildObjectScheme()), and each linter contains OneMeta, its Is<Type> check and PackageValidSemver (plus the kind allow-list for Provider/Configuration); " +
 			"(R15.3) every return taken after parsing started is dominated by the receive from the cache-write channel, a failed write deletes the entry, the goroutine forwards a Store failure, a failing cache Get evicts the entry and returns, the Store key is the revision name and Store is unreachable (on flag-consistent paths) under PullNever; the cache's Get/Store/Delete file operations run under its mutex; " +
-			"(R15.4) the image backend rejects a second annotated layer, validates the layer/image before using it and positions the reader on the package stream file; (R15.5) the signature controller sets a Verified condition with constant Status True only after ok(Validate) or on the no-verification-config edge. (R15.8) the generated converters of older package metadata assign every field the source and target types share (with a value that is not a zero constant). (R15.9) the accessors of the three revision kinds return the field they are named after (aliases tabled).",
+			"(R15.4) the image backend rejects a second annotated layer, validates the layer/image before using it and positions the reader on the package stream file; (R15.5) the signature controller sets a Verified condition with constant Status True only after ok(Validate) or on the no-verification-config edge. (R15.8) the generated converters of older package metadata assign every field the source and target types share (with a value that is not a zero constant). (R15.9) the accessors of the three revision kinds return the field they are named after (aliases tabled). (R15.10) the tee excuses only io.EOF as a clean end of stream; the verification-config predicate is Spec.Verification != nil.",
 		NotDecided:  []string{"equality 'declared = established' over contents", "registry bytes vs cache bytes", "concurrent writers of one cache file beyond the mutex", "the xpkg build round trip as values"},
 		Assumptions: []string{"parser.Parse consumes the stream it is given", "condition constructors return the constant Status in their body"},
 	})
